@@ -2782,6 +2782,14 @@ class Env(cabc.MutableMapping):
             return local[key]
         return NotImplemented
 
+    def _keys_written_by_set(self, key):
+        """`key` and the mirrored name ``_set_item`` keeps in sync with it
+        (e.g. ``XONSH_SUBPROC_CMD_RAISE_ERROR`` / ``RAISE_SUBPROC_ERROR``):
+        ``swap`` overrides both, so both must be restored."""
+        var = self._vars.get(key)
+        sync = getattr(var, "sync", None) if var is not None else None
+        return (key, sync) if sync else (key,)
+
     def _restore_after_swap(self, key, captured):
         """Undo ``swap``'s thread-local override of `key`."""
         if captured is not NotImplemented:
@@ -2819,11 +2827,13 @@ class Env(cabc.MutableMapping):
         # single positional argument should be a dict-like object
         if other is not None:
             for k, v in other.items():
-                old[k] = self._capture_for_swap(k, local)
+                for kk in self._keys_written_by_set(k):
+                    old.setdefault(kk, self._capture_for_swap(kk, local))
                 self._set_item(k, v, thread_local=True)
         # kwargs could also have been sent in
         for k, v in kwargs.items():
-            old[k] = self._capture_for_swap(k, local)
+            for kk in self._keys_written_by_set(k):
+                old.setdefault(kk, self._capture_for_swap(kk, local))
             self._set_item(k, v, thread_local=True)
 
         if overlay is not None:
